@@ -53,6 +53,15 @@ def run(ctx):
     rec = vlib.build_harness(lib, "c12_record", ["c12_record.cpp"])
     files = ctx.record(rec, ctx.pick(8, 32), ctx.pick(6000, 40000), "V/Counter", timeout=ctx.pick(300, 1500))
     ctx.validate_traces("Trace_Counter", "Trace_Counter", files, label="V/Counter", timeout=ctx.pick(600, 2400), xss="512m")
+    # auxiliary: the same contended drivers, hooks silent, under ThreadSanitizer (the property quantifies over runs under a
+    # data-race detector); a report in this driver - which only copies/assigns/drops own handles and bumps counters - is
+    # a race on the shared object
+    tlib = vlib.build_lib("tsan")
+    trec = vlib.build_harness(tlib, "c12_record", ["c12_record.cpp"])
+    n0 = len(ctx.violations)
+    ctx.record(trec, ctx.pick(4, 16), ctx.pick(1500, 20000), "TSan/Counter", extra_args=["--mode", "3"], timeout=ctx.pick(300, 1800),
+               env={"TSAN_OPTIONS": "exitcode=97:halt_on_error=1:second_deadlock_stack=1"})
+    ctx.extra["tsan_runs_clean"] = len(ctx.violations) == n0
     ctx.assumptions += [
         "threads only touch their own handles (the property's precondition)",
         "step granularity = one atomicInc/atomicDec plus the local code up to the next one",
